@@ -132,6 +132,9 @@ class Ctx:
         c.counter = self.counter
         c.rd_alias = set(self.rd_alias)
         c.narrow = set(self.narrow)
+        for k, v in self.__dict__.items():      # attributes added by subclasses of the translator (aliases, loop packers)
+            if k not in c.__dict__ or k in ("aliases", "brk", "in_loop"):
+                setattr(c, k, dict(v) if isinstance(v, dict) else v)
         return c
 
 
@@ -801,6 +804,21 @@ class Translator:
             src = "(%s.filter (fun %s => %s))" % (it, pat, " && ".join(self.truth(x, tx) for x, tx in conds))
         return "(Mimic.Py.dictOf (%s.map (fun %s => (%s, %s))))" % (src, pat, k, v), T_dict(tk, tv)
 
+    # ---------------------------------------------------------------- the monad of partial functions (hooks for subclasses)
+    def m_ok(self, x):
+        return "some %s" % x
+
+    def m_fail(self):
+        return "none"
+
+    def m_bind(self, term, pat, body):
+        """bind of a term of the function's own monad"""
+        return "match %s with\n| none => none\n| some %s =>\n%s" % (term, pat, ind(body))
+
+    def m_bind_opt(self, term, pat, body):
+        """bind of an `Option` (a callee that may raise)"""
+        return "match %s with\n| none => %s\n| some %s =>\n%s" % (term, self.m_fail(), pat, ind(body))
+
     # ---------------------------------------------------------------- statements
     def wrap(self, binds, body):
         """emit the effect binds in order around `body`"""
@@ -812,7 +830,7 @@ class Translator:
             elif pat.startswith("pure:"):
                 body = "match %s with\n| %s =>\n%s" % (term, pat[5:], ind(body))
             else:
-                body = "match %s with\n| none => none\n| some %s =>\n%s" % (term, pat, ind(body))
+                body = self.m_bind_opt(term, pat, body)
         return body
 
     def result(self, c, e):
@@ -878,7 +896,7 @@ class Translator:
         if not stmts:
             return False
         s = stmts[-1]
-        if isinstance(s, (ast.Return, ast.Raise)):
+        if isinstance(s, (ast.Return, ast.Raise, ast.Break)):
             return True
         if isinstance(s, ast.If) and s.orelse:
             return self.terminates(s.body) and self.terminates(s.orelse)
@@ -913,7 +931,7 @@ class Translator:
         if isinstance(s, ast.Raise):
             if not c.partial:
                 raise Untranslatable("raise in a total function")
-            return "none"
+            return self.m_fail()
         if isinstance(s, ast.Assert):
             # `assert isinstance(x, C)` on a sum-typed value is handled by the callers that need it
             raise Untranslatable("assert")
@@ -1152,7 +1170,7 @@ class Translator:
         def leaf2(c2):
             items = [self.coerce(nm, c2.env[nm], types[nm]) for nm in names] + ([c2.rd] if with_rd else [])
             tup = "()" if not items else items[0] if len(items) == 1 else "(" + ", ".join(items) + ")"
-            return ("some %s" % tup) if c.partial else tup
+            return self.m_ok(tup) if c.partial else tup
         c1, c2 = c.copy(), c.copy()
         if narrow_else and tn.left.id not in names:
             c2.env[tn.left.id] = c.env[tn.left.id][1]
@@ -1168,7 +1186,7 @@ class Translator:
         if narrow_else and tn.left.id not in names:
             join = "(match %s with\n| none =>\n%s\n| some %s =>\n%s)" % (tn.left.id, ind(thn), tn.left.id, ind(els))
         if c.partial:
-            return self.wrap(binds, "match %s with\n| none => none\n| some %s =>\n%s" % (join, pat, ind(cont(c3))))
+            return self.wrap(binds, self.m_bind(join, pat, cont(c3)))
         return self.wrap(binds, "match %s with\n| %s =>\n%s" % (join, pat, ind(cont(c3))))
 
     def loop_state(self, body, c, extra=()):
